@@ -87,7 +87,11 @@ func (obj JsonWebEncryption) computeAuthData() []byte {
 	var protected string
 
 	if obj.original != nil {
-		protected = obj.original.Protected.base64()
+		// A JSON-serialized object may lack the protected header: the encoded
+		// protected header is then the empty string (RFC 7516, section 5.1 step 14).
+		if obj.original.Protected != nil {
+			protected = obj.original.Protected.base64()
+		}
 	} else {
 		protected = base64URLEncode(mustSerializeJSON((obj.protected)))
 	}
